@@ -615,18 +615,33 @@ func guardBound(s ssa.Value, b *ssa.BasicBlock) int64 {
 		}
 		op := bo.Op
 		var k int64
-		if isLen(bo.X) {
+		// len(s) + c: (value, c)
+		lenPlus := func(v ssa.Value) (int64, bool) {
+			if isLen(v) {
+				return 0, true
+			}
+			if b2, ok := v.(*ssa.BinOp); ok && (b2.Op == token.ADD || b2.Op == token.SUB) && isLen(b2.X) {
+				if cc, ok := constIntOf(b2.Y); ok {
+					if b2.Op == token.SUB {
+						cc = -cc
+					}
+					return cc, true
+				}
+			}
+			return 0, false
+		}
+		if cOff, ok := lenPlus(bo.X); ok {
 			kk, ok := constIntOf(bo.Y)
 			if !ok {
 				continue
 			}
-			k = kk
-		} else if isLen(bo.Y) {
+			k = kk - cOff
+		} else if cOff, ok := lenPlus(bo.Y); ok {
 			kk, ok := constIntOf(bo.X)
 			if !ok {
 				continue
 			}
-			k = kk
+			k = kk - cOff
 			switch op {
 			case token.LSS:
 				op = token.GTR
@@ -814,11 +829,27 @@ func runECONSTIDX(c *Ctx, r *Report, reach map[*ssa.Function]bool, roots []*ssa.
 					continue
 				}
 				k, isC := constIntOf(idx)
+				fromEnd := false
+				if !isC {
+					// s[len(s) - j]: needs j elements, like the constant index j - 1
+					if bo, ok := idx.(*ssa.BinOp); ok && bo.Op == token.SUB {
+						if j, okJ := constIntOf(bo.Y); okJ && j >= 1 {
+							if lc, okL := bo.X.(*ssa.Call); okL {
+								if bi, okB := lc.Call.Value.(*ssa.Builtin); okB && bi.Name() == "len" && len(lc.Call.Args) == 1 && sameSliceLoose(lc.Call.Args[0], s) {
+									k, isC, fromEnd = j-1, true, true
+								}
+							}
+						}
+					}
+				}
 				if !isC {
 					continue
 				}
 				total++
 				name := fmt.Sprintf("%s:[%d]", shortFn(f), k)
+				if fromEnd {
+					name = fmt.Sprintf("%s:[len-%d]", shortFn(f), k+1)
+				}
 				key := fmt.Sprintf("%s#%d", name, ord[name])
 				ord[name]++
 				if ok, why := proveAt(s, k, b, 0); ok {
@@ -854,6 +885,7 @@ var frozenConstIdx = map[string]string{
 	"datamatrix/decoder.DataBlocks_getDataBlocks:[0]#0":     "result has one element per block of the version's ECBlocks, at least one in every row of the versions table (decided by T-DMVER under C08)",
 	"datamatrix/decoder.DataBlocks_getDataBlocks:[0]#1":     "as #0",
 	"qrcode/decoder.DataBlock_GetDataBlocks:[0]#0":          "result has one element per block of the version's ECBlocks, at least one in every row of VERSIONS (decided by T-QRVER under C07)",
+	"(*oned.codabarReader).DecodeRow:[len-1]#0":             "as [0]#0: the do-while loop appends before its first exit test",
 	"qrcode/decoder.DataBlock_GetDataBlocks:[0]#1":          "as #0",
 	// encode paths (C12)
 	"datamatrix/encoder.c40EncodeToCodewords:[0]#0": "X12Encoder.encode calls c40WriteNextTriplet only under len(buffer) % 3 == 0 right after x12EncodeChar appended a value, so the buffer holds at least 3; the other callers test len(buffer) >= 3",
@@ -986,4 +1018,193 @@ func (m *minLen) trace(v ssa.Value, depth int) string {
 		out += " <- " + fmt.Sprintf("%T", x.X)
 	}
 	return out
+}
+
+// sameSliceLoose: the same SSA value, or two loads of the same field of the same object / the same local variable
+// (len(t.f) and t.f[...] in one expression).
+func sameSliceLoose(a, b ssa.Value) bool {
+	if a == b {
+		return true
+	}
+	la, ok1 := a.(*ssa.UnOp)
+	lb, ok2 := b.(*ssa.UnOp)
+	if !ok1 || !ok2 || la.Op != token.MUL || lb.Op != token.MUL {
+		return false
+	}
+	if la.X == lb.X {
+		return true
+	}
+	fa, ok1 := la.X.(*ssa.FieldAddr)
+	fb, ok2 := lb.X.(*ssa.FieldAddr)
+	return ok1 && ok2 && fa.X == fb.X && fa.Field == fb.Field
+}
+
+// E-NEXTIDX: s[v + k] (k >= 1 a constant, v a run-time value) needs v + k < len(s): a dominating comparison of v (+ k')
+// with len(s) (- k”) must imply it, or the site is frozen with its reason.
+func runENEXTIDX(c *Ctx, r *Report, reach map[*ssa.Function]bool, scope string, min int) {
+	r.Rule("E-NEXTIDX", "a slice or string read at v + k, k >= 1 a constant and v a run-time position (the look-ahead idiom next := s[i+1]), is dominated by a comparison that implies v + k < len(s) - v + k' < len(s) with k' >= k, v < len(s) - k', or the complement of v >= len(s) - k' on the exit side - or is listed in the frozen table with its reason; functions reachable from "+scope, min)
+	var fs []*ssa.Function
+	for f := range reach {
+		fs = append(fs, f)
+	}
+	sort.Slice(fs, func(i, j int) bool { return fs[i].String() < fs[j].String() })
+	isLenOf := func(v, s ssa.Value) bool {
+		call, ok := v.(*ssa.Call)
+		if !ok {
+			return false
+		}
+		bi, ok := call.Call.Value.(*ssa.Builtin)
+		return ok && bi.Name() == "len" && len(call.Call.Args) == 1 && sameSliceLoose(call.Call.Args[0], s)
+	}
+	// split v into (base, const): v = base + c
+	split := func(v ssa.Value) (ssa.Value, int64) {
+		if bo, ok := v.(*ssa.BinOp); ok {
+			if k, isC := constIntOf(bo.Y); isC {
+				switch bo.Op {
+				case token.ADD:
+					return bo.X, k
+				case token.SUB:
+					return bo.X, -k
+				}
+			}
+		}
+		return v, 0
+	}
+	total := 0
+	ia := c.newIdxAnalysis()
+	ml := &minLen{c: c, memo: map[ssa.Value]int64{}, fnRes: map[*ssa.Function][]int64{}, busy: map[interface{}]bool{}, isRoot: map[*ssa.Function]bool{}, reach: reach}
+	for _, f := range fs {
+		ord := map[string]int{}
+		for _, b := range f.Blocks {
+			for _, in := range b.Instrs {
+				var s, idx ssa.Value
+				var pos token.Pos
+				switch x := in.(type) {
+				case *ssa.IndexAddr:
+					if _, isSlice := x.X.Type().Underlying().(*types.Slice); !isSlice {
+						continue
+					}
+					s, idx, pos = x.X, x.Index, x.Pos()
+				case *ssa.Lookup:
+					if bt, isB := x.X.Type().Underlying().(*types.Basic); !isB || bt.Info()&types.IsString == 0 {
+						continue
+					}
+					s, idx, pos = x.X, x.Index, x.Pos()
+				default:
+					continue
+				}
+				base, k := split(idx)
+				if k < 1 {
+					continue
+				}
+				// a bounded position into storage of known minimum length (loop counter below a constant, fixed-size buffer)
+				if rg := ia.rangeOf(idx, b, 0, map[ssa.Value]bool{}); rg.okHi && rg.okLo && rg.lo >= 0 {
+					if n := ml.boundAt(s, b, 0); n > rg.hi && n < 1<<30 {
+						continue
+					}
+				}
+				if _, isC := constIntOf(base); isC {
+					continue
+				}
+				if isLenOf(base, s) {
+					continue // len(s) + k: not this idiom
+				}
+				total++
+				name := fmt.Sprintf("%s:[+%d]", shortFn(f), k)
+				key := fmt.Sprintf("%s#%d", name, ord[name])
+				ord[name]++
+				proven := false
+				for _, blk := range f.Blocks {
+					if proven || len(blk.Instrs) == 0 {
+						break
+					}
+					iff, ok := blk.Instrs[len(blk.Instrs)-1].(*ssa.If)
+					if !ok {
+						continue
+					}
+					bo, ok := iff.Cond.(*ssa.BinOp)
+					if !ok {
+						continue
+					}
+					// normalise to  L + a  op  len(s) + bb   (a, bb constants)
+					lb, la := split(bo.X)
+					rb, ra := split(bo.Y)
+					op := bo.Op
+					if isLenOf(lb, s) && !isLenOf(rb, s) {
+						lb, la, rb, ra = rb, ra, lb, la
+						switch op {
+						case token.LSS:
+							op = token.GTR
+						case token.LEQ:
+							op = token.GEQ
+						case token.GTR:
+							op = token.LSS
+						case token.GEQ:
+							op = token.LEQ
+						}
+					}
+					if lb != base || !isLenOf(rb, s) {
+						continue
+					}
+					// base + la op len + ra  <=>  base op' len + (ra - la)
+					d := ra - la
+					// we need base + k < len, i.e. base < len - k, i.e. base <= len - k - 1
+					side := -1
+					switch op {
+					case token.LSS: // base < len + d  holds on true edge: need d <= -k
+						if d <= -k {
+							side = 0
+						}
+					case token.LEQ: // base <= len + d: need d <= -k-1
+						if d <= -k-1 {
+							side = 0
+						}
+					case token.GEQ: // base >= len + d false edge gives base < len + d
+						if d <= -k {
+							side = 1
+						}
+					case token.GTR: // false edge: base <= len + d
+						if d <= -k-1 {
+							side = 1
+						}
+					}
+					if side < 0 {
+						continue
+					}
+					succ := blk.Succs[side]
+					if len(succ.Preds) == 1 && (succ == b || succ.Dominates(b)) {
+						proven = true
+					}
+				}
+				if proven {
+					r.Pass("E-NEXTIDX", key, c.pos(pos), "dominating comparison with the length")
+				} else if fr, ok := frozenNextIdx[key]; ok {
+					r.Pass("E-NEXTIDX", key, c.pos(pos), "frozen: "+fr)
+				} else {
+					r.Fail("E-NEXTIDX", key, c.pos(pos), "violation", fmt.Sprintf("read at position + %d without a dominating comparison that keeps it below the length", k))
+				}
+			}
+		}
+	}
+	r.Extra("E-NEXTIDX sites", total)
+}
+
+var frozenNextIdx = map[string]string{
+	"(*gozxing.BitArray).GetNextSet:[+1]#0":                           "the word index is incremented and compared with len(b.bits) (equal: return) before the read; it starts below len(b.bits) because from < size is tested on entry and the storage holds (size+31)/32 words (the function is folded whole by S-WHOLE2 under C16)",
+	"(*gozxing.BitArray).GetNextUnset:[+1]#0":                         "as GetNextSet",
+	"(*gozxing.GlobalHistogramBinarizer).GetBlackRow:[+1]#0":          "x < width-1 in the loop header and the row holds width luminances (LuminanceSource contract, as for the frozen E-CONSTIDX rows of this function)",
+	"(*gozxing.HybridBinarizer).calculateThresholdForBlock:[+1]#0":    "left = cap(x, 2, subWidth-3) lies in [2, subWidth-3] and every blackPoints row has subWidth entries (window and 40-pixel guard decided by S-PIXMAP / M-HYBGUARD under C17)",
+	"(*gozxing.HybridBinarizer).calculateThresholdForBlock:[+2]#0":    "as [+1]",
+	"(*qrcode/detector.AlignmentPatternFinder).Find:[+1]#0":           "three-counter state machine: currentState is incremented only from state 0 (state 1 counts in place, state 2 resets), stateCount has 3 elements",
+	"(*qrcode/detector.AlignmentPatternFinder).Find:[+1]#1":           "three-counter state machine: the white-pixel branch increments only from state 1",
+	"(*qrcode/detector.FinderPatternFinder).Find:[+1]#0":              "five-counter state machine: the black-pixel branch increments only from the odd states 1 and 3, stateCount has 5 elements",
+	"(*qrcode/detector.FinderPatternFinder).Find:[+1]#1":              "five-counter state machine: the white-pixel branch increments only from the even states 0 and 2 (state 4 is handled separately)",
+	"(common.DefaultGridSampler).SampleGridWithTransform:[+1]#0":      "points has 2*dimensionX elements and x runs over the even positions below len(points)",
+	"(common.DefaultGridSampler).SampleGridWithTransform:[+1]#1":      "as #0",
+	"common.GridSampler_checkAndNudgePoints:[+1]#3":                   "offset runs over the even positions from len(points)-2 down to 0 of a list of coordinate pairs (its only caller on decode paths, DefaultGridSampler, passes 2*n values)",
+	"common.GridSampler_checkAndNudgePoints:[+1]#4":                   "as #3",
+	"common.GridSampler_checkAndNudgePoints:[+1]#5":                   "as #3",
+	"oned.RecordPattern:[+1]#1":                                       "counterPosition is incremented and compared with numCounters = len(counters) (equal: break) before the store (the function is folded whole by S-RUNS under C20)",
+	"qrcode/decoder.DecodedBitStreamParser_decodeHanziSegment:[+1]#0": "buffer is made with 2*count bytes; offset advances by 2 per character while count counts down to 0",
+	"qrcode/decoder.DecodedBitStreamParser_decodeKanjiSegment:[+1]#0": "as the Hanzi segment",
 }
